@@ -376,6 +376,9 @@ static inline int ubuf_block_delete(struct ubuf *ubuf, int offset, int size)
     struct ubuf_block *head_block = ubuf_block_from_ubuf(ubuf);
     if (unlikely((ubuf = ubuf_block_get(ubuf, &offset, &size)) == NULL))
         return UBASE_ERR_INVALID;
+    if (unlikely(size < 0 || head_block->cached_offset + offset + size >
+                             head_block->total_size))
+        return UBASE_ERR_INVALID;
     int delete_size = size;
 
     do {
